@@ -211,7 +211,30 @@ func RunCmd(dir string, env []string, timeout time.Duration, name string, args .
 
 // PrepareRepo copies the repository's current working tree into the scratch directory,
 // instruments it, and builds the instrumented mockery binary.
+// GuardDisk keeps the Go build cache from filling the disk: every differently edited tree a check
+// is run against adds its own compiled packages (about 1 GB), and nothing ever removes them. When
+// less than 20 GiB are left on the cache's file system the cache is emptied (the next build is a
+// cold one); a check never fails for it.
+func GuardDisk() {
+	dir, err := os.UserCacheDir()
+	if err != nil {
+		return
+	}
+	if d := os.Getenv("GOCACHE"); d != "" {
+		dir = d
+	}
+	var st syscall.Statfs_t
+	if syscall.Statfs(dir, &st) != nil {
+		return
+	}
+	if free := st.Bavail * uint64(st.Bsize); free < 20<<30 {
+		fmt.Fprintf(os.Stderr, "NOTE: %d GiB left on %s: emptying the Go build cache\n", free>>30, dir)
+		RunCmd("", GoEnv(), 10*time.Minute, "go", "clean", "-cache")
+	}
+}
+
 func (c *Ctx) PrepareRepo(buildMockery bool) {
+	GuardDisk()
 	c.RepoCopy = filepath.Join(c.Scratch, "repo")
 	if r := RunCmd("", os.Environ(), 2*time.Minute, "rsync", "-a", "--exclude", ".git", c.RepoDir+"/", c.RepoCopy+"/"); r.Exit != 0 {
 		Troublef("rsync failed: %s", r.Stderr)
